@@ -264,7 +264,7 @@ func runC12(r *R) {
 				hintAppends = append(hintAppends, c.(ssa.Instruction))
 			}
 		}
-		if sorterAppend == nil || len(hintAppends) < 2 {
+		if sorterAppend == nil || len(hintAppends) < 1 {
 			r.Bad("C12-R4", fn, "appends", fn.Pos(), "hint appends / sorted-roots append not found")
 		} else {
 			hdr := loopHeaderOf(hintAppends[0].Block())
@@ -282,11 +282,30 @@ func runC12(r *R) {
 			}
 			r.Check(okOrder, "C12-R4", fn, "hints before sorted roots", sorterAppend.Pos(), "sorted local roots are appended after the hint loop", "local roots are not appended after all hints")
 			r.Check(okExit, "C12-R4", fn, "hint scan covers every hint", hintAppends[0].Pos(), "the hint loop leaves only when all +-fields were examined", "an unusable hint can end the scan: later usable hints in the locator are ignored")
+			c7 := EqC("len(hint)==7", lenVP, ConstIntVP(7))
+			c29 := EqC("len(hint)==29", lenVP, ConstIntVP(29))
 			for _, h := range hintAppends {
-				g7, _ := Guard(fn, nil, h, EqC("len(hint)==7", lenVP, ConstIntVP(7)))
-				g29, _ := Guard(fn, nil, h, EqC("len(hint)==29", lenVP, ConstIntVP(29)))
-				gK := GuardOrPass(fn, nil, h, nil, NeqC("hint[0:2] != \"K@\" is false", AnyV, ConstStrVP("K@")))
-				_ = gK
+				// the URI appended may be one value merged from several outcomes (a helper returning (uri, ok)): each
+				// outcome that can reach the append is judged on its own paths
+				var phi *ssa.Phi
+				if elems, ok := VarargElems(h.(ssa.CallInstruction).Common().Args[1]); ok && len(elems) == 1 && elems[0] != nil {
+					phi, _ = Strip(elems[0]).(*ssa.Phi)
+				}
+				if phi != nil {
+					okAll := true
+					for k := range phi.Edges {
+						if !ReachSel(fn, h, EdgeSet{}, phi.Block(), k) {
+							continue
+						}
+						if !GuardLeaf(fn, phi, k, h, c7, c29) {
+							okAll = false
+						}
+					}
+					r.Check(okAll, "C12-R4", fn, "append(found, hintURI)", h.Pos(), "only for 7-char (cluster) or 29-char (gateway) K@ hints", "a hint of another shape is used")
+					continue
+				}
+				g7, _ := Guard(fn, nil, h, c7)
+				g29, _ := Guard(fn, nil, h, c29)
 				r.Check(g7 || g29, "C12-R4", fn, "append(found, hintURI)", h.Pos(), "only for 7-char (cluster) or 29-char (gateway) K@ hints", "a hint of another shape is used")
 			}
 		}
